@@ -74,3 +74,39 @@ def l3(bits, kmax, timeout_s):
         p = z3.fpMul(z3.RNE(), kk, r)
         bad.append(z3.Not(z3.And(z3.fpGEQ(p, zero), z3.fpLEQ(p, kk))))
     return _solve([_finite(r), z3.fpGEQ(r, zero), z3.fpLEQ(r, one), z3.Or(*bad)], timeout_s)
+
+
+def rounding_witness(n, cell, timeout_s):
+    """Doubles arr[0] < ... < arr[n-1] and val inside cell `cell` (not the top
+    one) for which the first interpolation guess of get_bin_on_value_1d lands
+    on ind_max although val < arr[ind_max]: fl(val - arr[0]) == fl(arr[-1] -
+    arr[0]), so the quotient is exactly 1.0.  Returns (result, seconds,
+    (val, arr) as Python floats or None)."""
+    import struct
+    S = _sort(64)
+    rm = z3.RNE()
+    arr = [z3.FP("e%d" % i, S) for i in range(n)]
+    val = z3.FP("val", S)
+    cons = [_finite(x) for x in arr + [val]]
+    cons += [z3.fpLT(arr[i], arr[i + 1]) for i in range(n - 1)]
+    cons += [z3.fpLT(arr[cell], val) if cell > 0 else z3.fpLT(arr[0], val), z3.fpLT(val, arr[cell + 1])]
+    d1 = z3.fpSub(rm, val, arr[0])
+    d2 = z3.fpSub(rm, arr[n - 1], arr[0])
+    cons += [_finite(d2), z3.fpEQ(d1, d2)]
+    big, small = z3.FPVal(1e30, S), z3.FPVal(1e-30, S)
+    cons += [z3.fpLT(z3.fpAbs(x), big) for x in arr]
+    cons += [z3.fpGT(z3.fpSub(rm, arr[i + 1], arr[i]), small) for i in range(1, n - 1)]
+    s = z3.Solver()
+    s.set("timeout", int(timeout_s * 1000))
+    s.add(*cons)
+    t = time.perf_counter()
+    r = str(s.check())
+    dt = round(time.perf_counter() - t, 2)
+    if r != "sat":
+        return r, dt, None
+    m = s.model()
+
+    def tofloat(x):
+        bv = m.eval(z3.fpToIEEEBV(x), model_completion=True).as_long()
+        return struct.unpack(">d", struct.pack(">Q", bv))[0]
+    return r, dt, (tofloat(val), [tofloat(x) for x in arr])
